@@ -333,6 +333,13 @@ func fmtVars(mm map[string]string) string {
 
 // refScan: the scan loop of property C01 — leftmost, non-overlapping, non-empty.
 func refScan(p *Prog, text string, v Variants) ([]Span, *Ref) {
+	if p.Pre != nil {
+		// a source with two commands reports the first command's matches, then the second's
+		first, r1 := refScan(&Prog{Defs: p.Defs, Body: p.Pre}, text, v)
+		second, r2 := refScan(&Prog{Defs: p.Defs, Body: p.Body}, text, v)
+		r2.blown = r2.blown || r1.blown
+		return append(first, second...), r2
+	}
 	r := newRef(p, text)
 	r.v = v
 	r.limit = 20_000_000
